@@ -23,6 +23,14 @@ def build(ctx):
                                unwindset=["strlen.0:20", "strcmp.0:20", "atoi.0:4", "atoi.1:8", "atof.0:4", "atof.1:8", "atof.2:8"],
                                descr={"port": what, "incoming value": "symbolic over the storage type", "stored state": "symbolic", "message": "query (no arguments)" if query else "set"}))
         q.prepare = (lambda name_, defs_: (lambda q_: q_.sources.__setitem__(0, ctx.ir_translate(name_, h, cxx=True, defines=inc + defs_))))(name, defs)
+        if k == 4 and not query:
+            defs2 = defs + ["-DFLOAT_SMALL"]
+            name2 = name + "-small"
+            q2 = ctx.add(vlib.Query(name2, ["@IR@"] + rt, defines=defs2, unwind=24, objbits=12, native_sources=[h], native_cxx=True, native_flags=inc + defs2,
+                                    native_lib_exclude=["ports.cpp"], native_c_sources=[os.path.join(vlib.STUBS, "rtosc_shim.c")],
+                                    unwindset=["strlen.0:20", "strcmp.0:20", "atoi.0:4", "atoi.1:8", "atof.0:4", "atof.1:8", "atof.2:8"],
+                                    descr={"port": what, "incoming value": "floats with |x| < 1e9 (variant)", "stored state": "symbolic", "message": "set"}))
+            q2.prepare = (lambda name_, defs_: (lambda q_: q_.sources.__setitem__(0, ctx.ir_translate(name_, h, cxx=True, defines=inc + defs_))))(name2, defs2)
     ctx.bounds = {"port kinds": list(KINDS.values()), "values": "every int32 / every non-NaN float / -128..127 for char-backed kinds / 5-byte strings", "array index": "every valid index"}
     ctx.assumptions = ["callbacks are invoked with d.loc = full address, d.port = own port, d.obj = object (what C04 states dispatch provides)",
                        "recording RtData subclass overrides the variadic reply/broadcast and encodes into 64-byte buffers with the real rtosc_vmessage",
